@@ -1240,6 +1240,8 @@ def c11_systematic(ctx):
                 steps += [{"ev": "byte", "b": b} for b in sessions.KEY_BYTES["left"]]
             steps.append({"ev": "byte", "b": 9})
             steps.append({"ev": "byte", "b": 9})
+            # Tab again after moving the cursor only (its result depends on the cursor position)
+            steps += scen(["<left>", "<tab>", "<right>", "<right>", "<tab>"])
             scripts.append({"sid": sid, "cfg": {"cmd": cmd, "hcap": 0, "set": set_id, "prompt": rng.choice([0, 1])}, "steps": steps})
             sid += 1
     ctx.extra["systematic_tab_cases"] = len(scripts)
